@@ -269,6 +269,10 @@ def check(ctx):
              # text with every character XML treats specially, in every order, and the one sequence that is special as a whole
              T.UAString("x[y[0]]>z"), T.UAString("a > b >= c"), T.UAString("]]>"), T.UAString("<![CDATA[x]]>"), T.UAGuid("g]]>"), T.UALocalizedText("t]]>u", "en"),
              T.UAListOf((T.UAString("]]>"), T.UAString("&<>\"'")), "String"), T.UAString("&amp;"), T.UAString("&#65;"),
+             # extension objects whose type id is NOT one of the two encoding ids the library maps to its own classes, with bodies that look like those structures
+             T.UAExtensionObject(type_nodeid=T.UANodeId(0, "i", "887"), body=T.UAXMLElement('<EUInformation xmlns="http://opcfoundation.org/UA/2008/02/Types.xsd"><NamespaceUri>http://u</NamespaceUri><UnitId>5</UnitId><DisplayName><Locale>en</Locale><Text>m</Text></DisplayName><Description><Locale>en</Locale><Text>metre</Text></Description></EUInformation>')),
+             T.UAExtensionObject(type_nodeid=T.UANodeId(0, "i", "884"), body=T.UAXMLElement('<Range xmlns="http://opcfoundation.org/UA/2008/02/Types.xsd"><Low>1.0</Low><High>2.0</High></Range>')),
+             T.UAExtensionObject(type_nodeid=T.UANodeId(1, "i", "888"), body=T.UAXMLElement('<Range xmlns="http://opcfoundation.org/UA/2008/02/Types.xsd"><Low>2.0</Low><High>1.0</High></Range>')),
              # nested lists (depth two and three, an empty inner list), the 64-bit extremes and 2**53 + 1
              T.UAListOf((T.UAListOf((T.UAInt32(1), T.UAInt32(2)), "Int32"), T.UAListOf((), "Int32")), "ListOfInt32"),
              T.UAListOf((T.UAListOf((T.UAListOf((T.UAString("a"),), "String"),), "ListOfString"),), "ListOfListOfString"),
